@@ -76,6 +76,16 @@ def generate(tier, seed):
             x, y = rnd.choice(pairs)
             ops.append((rnd.choice("AD"), x, y, None))
         cases.append(case(rnd.randint(0, 4), ops, q4))
+    # names that are prefixes / suffixes of one another, and domain names that continue them: (a, ba), (ab, a), (aba, "") all
+    # CONCATENATE to the same text - every (name1, name2, domain) question is its own question, in whatever order they are asked
+    namesx = ["a", "ab", "b", "ba", "aba"]
+    pairsx = [(x, y) for x in namesx for y in namesx if x != y]
+    for _ in range(60 if tier == "quick" else 1500):
+        es = rnd.sample(pairsx, rnd.randint(1, 4))
+        ops = [("A", x, y, rnd.choice([None, None, "a", "b"])) for (x, y) in es]
+        qx = [("H", x, y, d) for x in namesx for y in namesx for d in (None, "a", "b", "")]
+        rnd.shuffle(qx)
+        cases.append(case(rnd.randint(2, 4), ops, qx[:60]))
     # random long histories over 12 names with chains around the limit 10
     n_rand = 150 if tier == "quick" else 3000
     names12 = ["n%d" % i for i in range(12)]
